@@ -382,6 +382,9 @@ func runConf(c *lib.Ctx, dir string, maxLen int, wide bool, perClass map[string]
 	if firstErr != nil {
 		return 0, firstErr
 	}
+	if err := compileOnlyCases(c, cases); err != nil {
+		return 0, err
+	}
 	return len(cases), nil
 }
 
